@@ -1,6 +1,145 @@
 import NpsVerif.Model.Ufunc
-namespace Props.C04
+import NpsVerif.Proofs.XorBroadcast
+import NpsVerif.Proofs.UfuncRows
+/-!
+# Property C04 — element-wise ufuncs on a RaggedArray and column broadcasting
+
+All theorems quantify over every vector of row lengths (any placement of empty rows, zero rows),
+every element type with XOR laws (`XorLike`), every content and every binary operation `f`.
+Helper lemmas live in `Proofs/XorBroadcast.lean` (the XOR builder) and `Proofs/UfuncRows.lean`.
+-/
 open Model
-/-- sanity instance; the universally quantified theorems are added as they are proved -/
-theorem rawBroadcast_example : rawBroadcast (Shape.ofLens [0, 2, 0, 0, 1, 0]) [10, 11, 12, 13, 14, 15] = [11, 11, 14] := by decide
+
+namespace Props.C04
+open Proofs.XorBroadcast Proofs.UfuncRows
+variable {α β γ : Type}
+
+/-- the XOR-scatter + prefix-XOR broadcast repeats entry i over row i — for EVERY placement of empty
+rows (several rows then share a start / end position; the reversed first scatter makes the first row
+with a given end win, the second makes the last row with a given start win) -/
+theorem C04_raw_broadcast [XorLike α] (ls : List Nat) (vals : List α) (h : vals.length = ls.length) :
+    rawBroadcast (Shape.ofLens ls) vals = (List.zipWith (fun l v => List.replicate l v) ls vals).flatten :=
+  C04_raw_broadcast' ls vals h
+
+theorem C04_unary (g : α → β) (rows : List (List α)) :
+    (ufunc1 g (RA.ofRows rows)).rows = rows.map (·.map g) ∧
+    (ufunc1 g (RA.ofRows rows)).shape = (RA.ofRows rows).shape := by
+  refine ⟨?_, rfl⟩
+  simp only [ufunc1, RA.ofRows, List.map_flatten]
+  exact rows_mk _ _ (by simp [Function.comp_def])
+
+theorem C04_scalar_right [XorLike β] (f : α → β → γ) (rows : List (List α)) (s : β) :
+    (ufuncRight f (RA.ofRows rows) (.scalar s)).map RA.rows = some (rows.map (·.map (f · s))) := by
+  simp only [ufuncRight, RA.ofRows, List.map_flatten, Option.map_some]
+  exact congrArg some (rows_mk _ _ (by simp [Function.comp_def]))
+
+theorem C04_scalar_left [XorLike α] (f : α → β → γ) (rows : List (List β)) (s : α) :
+    (ufuncLeft f (RA.ofRows rows) (.scalar s)).map RA.rows = some (rows.map (·.map (f s ·))) := by
+  simp only [ufuncLeft, RA.ofRows, List.map_flatten, Option.map_some]
+  exact congrArg some (rows_mk _ _ (by simp [Function.comp_def]))
+
+/-- (n_rows, 1) column on the right: row i is combined with entry i -/
+theorem C04_column_right [XorLike β] (f : α → β → γ) (rows : List (List α)) (col : List β)
+    (h : col.length = rows.length) :
+    (ufuncRight f (RA.ofRows rows) (.column col)).map RA.rows =
+      some (List.zipWith (fun r c => r.map (f · c)) rows col) := by
+  simp only [ufuncRight, RA.ofRows]
+  rw [column_right_flat f _ _ col rows.flatten (by simpa using h) (by simp [List.length_flatten]),
+    zipWith_flatten_column_right]
+  exact congrArg some (rows_mk _ _ (lengths_zipWith_map f rows col h))
+
+/-- column on the left (reflected call): operand order respected -/
+theorem C04_column_left [XorLike α] (f : α → β → γ) (rows : List (List β)) (col : List α)
+    (h : col.length = rows.length) :
+    (ufuncLeft f (RA.ofRows rows) (.column col)).map RA.rows =
+      some (List.zipWith (fun r c => r.map (f c ·)) rows col) := by
+  simp only [ufuncLeft, RA.ofRows]
+  rw [column_left_flat f _ _ col rows.flatten (by simpa using h) (by simp [List.length_flatten]),
+    zipWith_flatten_column_left]
+  exact congrArg some (rows_mk _ _ (lengths_zipWith_map (fun b a => f a b) rows col h))
+
+/-- a column of the wrong height is refused (a single entry is numpy's scalar-like broadcast) -/
+theorem C04_column_refuses [XorLike β] (f : α → β → γ) (rows : List (List α)) (col : List β)
+    (h : col.length ≠ rows.length) (h1 : col.length ≠ 1) :
+    ufuncRight f (RA.ofRows rows) (.column col) = none := by
+  simp only [ufuncRight, RA.ofRows]
+  rw [broadcastValues_refuses _ col (by simpa using h) h1]
+  rfl
+
+/-- two ragged arrays with identical row lengths: cell by cell -/
+theorem C04_ragged [XorLike β] (f : α → β → γ) (rows : List (List α)) (others : List (List β))
+    (h : others.map List.length = rows.map List.length) :
+    (ufuncRight f (RA.ofRows rows) (.ragged (RA.ofRows others))).map RA.rows =
+      some (List.zipWith (fun r o => List.zipWith f r o) rows others) := by
+  simp only [ufuncRight, RA.ofRows, h, ne_eq, not_true_eq_false, if_false]
+  rw [applyFlat_eq_length _ _ _ (by rw [List.length_flatten, List.length_flatten, h]),
+    zipWith_flatten_rows f rows others h]
+  exact congrArg some (rows_mk _ _ (lengths_zipWith_zipWith f rows others h))
+
+/-- different row lengths are refused, never combined -/
+theorem C04_ragged_refuses [XorLike β] (f : α → β → γ) (rows : List (List α)) (others : List (List β))
+    (h : others.map List.length ≠ rows.map List.length) :
+    ufuncRight f (RA.ofRows rows) (.ragged (RA.ofRows others)) = none := by
+  have hne : (RA.ofRows others).shape ≠ (RA.ofRows rows).shape := fun e => h (ofLens_injective e)
+  simp only [ufuncRight]
+  rw [if_pos hne]
+
+/-- the result always has the operand's shape -/
+theorem C04_shape [XorLike β] (f : α → β → γ) (a : RA α) (x : Operand β) (r : RA γ)
+    (h : ufuncRight f a x = some r) : r.shape = a.shape := by
+  cases x with
+  | scalar s =>
+    simp only [ufuncRight, Option.some.injEq] at h
+    rw [← h]
+  | column col =>
+    simp only [ufuncRight] at h
+    obtain ⟨b, _, hb⟩ := Option.bind_eq_some_iff.mp h
+    obtain ⟨d, _, hd⟩ := Option.map_eq_some_iff.mp hb
+    rw [← hd]
+  | ragged o =>
+    simp only [ufuncRight] at h
+    split at h
+    · exact absurd h (by simp)
+    · obtain ⟨d, _, hd⟩ := Option.map_eq_some_iff.mp h
+      rw [← hd]
+
+/-! ## non-vacuity: concrete instances over `Nat` (XOR = `Nat.xor`) -/
+
+/- empty rows at the start, in the middle (consecutive) and at the end -/
+example : rawBroadcast (Shape.ofLens [0, 2, 0, 0, 1, 0]) [10, 11, 12, 13, 14, 15] = [11, 11, 14] := by decide
+/- all rows empty -/
+example : rawBroadcast (Shape.ofLens [0, 0]) [7, 9] = ([] : List Nat) := by decide
+/- a single row -/
+example : rawBroadcast (Shape.ofLens [3]) [5] = [5, 5, 5] := by decide
+/- zero rows -/
+example : rawBroadcast (Shape.ofLens []) ([] : List Nat) = [] := by decide
+/- the intermediate builder really has colliding writes: rows 2, 3, 4 all start at 2, rows 1, 2, 3 all end at 2 -/
+example : (Shape.ofLens [0, 2, 0, 0, 1, 0]).starts = [0, 0, 2, 2, 2, 3] ∧
+    (Shape.ofLens [0, 2, 0, 0, 1, 0]).ends = [0, 2, 2, 2, 3, 3] := by decide
+/- a column on the right (subtraction is not commutative: operand order is visible) -/
+example : (ufuncRight (fun a b => a - b) (RA.ofRows [[], [10, 20], [], [], [30], []])
+      (.column [1, 2, 3, 4, 5, 6])).map RA.rows = some [[], [8, 18], [], [], [25], []] := by decide
+/- a column on the left -/
+example : (ufuncLeft (fun a b => a - b) (RA.ofRows [[], [1, 2], [], [], [3], []])
+      (.column [10, 20, 30, 40, 50, 60])).map RA.rows = some [[], [19, 18], [], [], [47], []] := by decide
+/- the size-1 shortcut: one row, one column entry -/
+example : (ufuncRight (fun a b => a + b) (RA.ofRows [[1, 2, 3]]) (.column [10])).map RA.rows
+    = some [[11, 12, 13]] := by decide
+/- a column on zero rows / on rows that are all empty -/
+example : (ufuncRight (fun a b => a + b) (RA.ofRows ([] : List (List Nat))) (.column [])).map RA.rows
+    = some [] := by decide
+example : (ufuncRight (fun a b => a + b) (RA.ofRows [([] : List Nat), []]) (.column [1, 2])).map RA.rows
+    = some [[], []] := by decide
+/- a column of the wrong height is refused -/
+example : ufuncRight (fun a b => a + b) (RA.ofRows [[1], [2, 3]]) (.column [1, 2, 3]) = none := by decide
+/- ragged operands: accepted with equal row lengths, refused otherwise -/
+example : (ufuncRight (fun a b => a + b) (RA.ofRows [[1], [], [2, 3]])
+      (.ragged (RA.ofRows [[10], [], [20, 30]]))).map RA.rows = some [[11], [], [22, 33]] := by decide
+example : ufuncRight (fun a b => a + b) (RA.ofRows [[1], [], [2, 3]])
+      (.ragged (RA.ofRows [[10], [20], [30]])) = none := by decide
+/- scalar and unary -/
+example : (ufuncRight (fun a b => a - b) (RA.ofRows [[], [5, 6], []]) (.scalar 1)).map RA.rows
+    = some [[], [4, 5], []] := by decide
+example : (ufunc1 (· + 1) (RA.ofRows [[], [5, 6], []])).rows = [[], [6, 7], []] := by decide
+
 end Props.C04
